@@ -1,12 +1,17 @@
 import LunarVerif.Base.Proto
 import LunarVerif.Spec.C12
+import LunarVerif.Spec.C12Conc
+import LunarVerif.Spec.C12Shared
 /-! Driver for C12: `lvdriver_c12 run` (model answers) / `lvdriver_c12 judge` (Spec on the implementation's answers).
 
 Case layout (one `cfg` line, then operations):
   cfg cache    t0=<ns> max=<bytes|none>
   cfg caching  t0=<ns> ttl8=<int> maxrec=<bytes> maxb=<bytes> paths=<a,!b|%e>     (TTL = ttl8 × 125 ms; `!` = other payload type)
   cfg throttle t0=<ns> type=rel|abs|undef statuses=<429,503|%e> hdr=<name>
+  cfg shared   t0=<ns> r0=<ttl8>/<maxrec>/<maxb>/<paths> r1=…        (several caching remedies, ONE plugin; ops carry r=<index>)
 cache ops   : set k= v= ttl8=   | get k= | has k= | del k=
+gated ops   : cset id= k= v= ttl8= | cget id= k= | chas id= k=  (the call runs up to its clock read and parks there)
+              crel id=  (the parked call reads the clock now and runs to its end)
 plugin ops  : resp m= u= pp=<a:1,b:2|%e> id= st= body= tag=<enc|%n> ra=<enc|%n>   | req m= u= pp=
 clock ops   : adv d=<ns> (due sleepers run) | skip d=<ns> (nobody runs) | fire i=<index among pending> | probe
 -/
@@ -14,9 +19,10 @@ open LunarVerif LunarVerif.Proto LunarVerif.C12
 
 inductive Mode where
   | none
-  | cache (cfg : Cfg) (c : Cache String String)
+  | cache (cfg : Cfg) (s : IState String String) (ids : List (Nat × Nat))
   | caching (cfg : CCfg) (paths : List (Bool × String)) (c : CCache String)
   | throttle (cfg : TCfg) (c : TCache String)
+  | shared (rems : List (CCfg × List (Bool × String))) (c : SCache String)
 
 def ttlUnit : Int := 125000000
 
@@ -46,15 +52,24 @@ def parseNatList (w : String) : Option (List Nat) :=
   let s := pctDec w
   if s.isEmpty then some [] else (s.splitOn ",").mapM String.toNat?
 
+def parseRemedy (w : String) : Option (CCfg × List (Bool × String)) :=
+  match w.splitOn "/" with
+  | [a, b, c, d] => do
+    let ttl8 ← a.toInt?
+    let maxrec ← b.toNat?
+    let maxb ← c.toNat?
+    pure (⟨ttl8 * ttlUnit, maxrec, maxb⟩, parsePaths d)
+  | _ => none
+
 def parseCfg (ws : List String) : Option Mode :=
   match ws with
   | "cache" :: ws => do
     let t0 ← kvInt ws "t0"
     let mx ← kv ws "max"
-    if mx == "none" then pure (.cache ⟨t0, false, 0⟩ (Cache.init t0 false 0))
+    if mx == "none" then pure (.cache ⟨t0, false, 0⟩ (IState.init (Cache.init t0 false 0) true) [])
     else
       let n ← mx.toNat?
-      pure (.cache ⟨t0, true, n⟩ (Cache.init t0 true n))
+      pure (.cache ⟨t0, true, n⟩ (IState.init (Cache.init t0 true n) true) [])
   | "caching" :: ws => do
     let t0 ← kvInt ws "t0"
     let ttl8 ← kvInt ws "ttl8"
@@ -62,6 +77,10 @@ def parseCfg (ws : List String) : Option Mode :=
     let maxb ← kvNat ws "maxb"
     let paths ← kv ws "paths"
     pure (.caching ⟨ttl8 * ttlUnit, maxrec, maxb⟩ (parsePaths paths) (Cache.init t0 false 0))
+  | "shared" :: ws => do
+    let t0 ← kvInt ws "t0"
+    let rems ← (["r0", "r1", "r2", "r3"].filterMap (kv ws)).mapM parseRemedy
+    if rems.isEmpty then none else pure (.shared rems (Cache.init t0 false 0))
   | "throttle" :: ws => do
     let t0 ← kvInt ws "t0"
     let ty ← kv ws "type"
@@ -134,6 +153,21 @@ def parsePOp (paths : List (Bool × String)) (hdrName : String) (ws : List Strin
       pure (.req m u (selectParams paths pp))
     | _ => none
 
+def parseSOp (rems : List (CCfg × List (Bool × String))) (ws : List String) : Option (SOp String) :=
+  match parseClock ws with
+  | some (.fire i) => some (.fire i)
+  | some (.skip d) => some (.skip d)
+  | some (.adv d) => some (.adv d)
+  | some .probe => some .probe
+  | none => do
+    let idx ← kvNat ws "r"
+    let (cfg, paths) ← rems[idx]?
+    let rm : Remedy := ⟨cfg, paths.length⟩
+    match ← parsePOp paths "Retry-After" ws with
+    | .resp m u sel r bl sz => pure (.resp rm m u sel r bl sz)
+    | .req m u sel => pure (.req rm m u sel)
+    | _ => none
+
 def fmtFire : FireRes → String
   | .fired => "fired"
   | .notDue => "not-due"
@@ -162,6 +196,84 @@ def fmtPOut : POut String → String
   | .unit => "ok"
   | .probed t h n p => fmtProbe t h n p
 
+/-- gated (concurrent) operations of the cache level -/
+inductive Gated where
+  | cset (id : Nat) (k v : String) (ttl : Int) (sz : Nat)
+  | cget (id : Nat) (k : String)
+  | chas (id : Nat) (k : String)
+  | crel (id : Nat)
+
+def parseGated : List String → Option Gated
+  | "cset" :: ws => do
+    let id ← kvNat ws "id"
+    let k ← kvS ws "k"
+    let v ← kvS ws "v"
+    let ttl8 ← kvInt ws "ttl8"
+    pure (.cset id k v (ttl8 * ttlUnit) (k.utf8ByteSize + v.utf8ByteSize))
+  | ["cget", a, b] => do
+    let id ← kvNat [a, b] "id"
+    let k ← kvS [a, b] "k"
+    pure (.cget id k)
+  | ["chas", a, b] => do
+    let id ← kvNat [a, b] "id"
+    let k ← kvS [a, b] "k"
+    pure (.chas id k)
+  | ["crel", a] => (kvNat [a] "id").map .crel
+  | _ => none
+
+def fmtRes : Res String String → String
+  | .setOk => "ok"
+  | .setFull => "err:full"
+  | .got _ (some v) _ => s!"hit v={pctEnc v}"
+  | .got _ none _ => "miss"
+  | .hasRes _ b _ => if b then "true" else "false"
+  | .unit => "ok"
+
+/-- a sequential operation = the call's sections back to back in the interleaving model -/
+def runSeq (st : IState String String) (ev : Ev String String) : IState String String × String :=
+  let viaCall (cl : Call String String) : IState String String × String :=
+    let st' := callRun st cl
+    (st', match resultOf st' st.threads.length with | some r => fmtRes r | none => "stuck")
+  match ev with
+  | .set k v ttl sz => viaCall (.set k v ttl sz)
+  | .get k => viaCall (.get k)
+  | .has k => viaCall (.has k)
+  | .del k => viaCall (.del k)
+  | .fire i => (istep st (.fire i), fmtFire (fire st.c i).2)
+  | .skip d => (istep st (.skip d), "ok")
+  | .adv d => (istep st (.adv d), s!"ok fired={(adv st.c d).2}")
+  | .probe => (istep st .probe, fmtProbe st.c.tracked (heldSize st.c.entries) st.c.entries.length st.c.pending.length)
+
+def runGated (st : IState String String) (ids : List (Nat × Nat)) :
+    Gated → IState String String × List (Nat × Nat) × String
+  | .cset id k v ttl sz =>
+    if (ids.lookup id).isSome then (st, ids, "dup") else
+    let j := st.threads.length
+    let st' := runThread (istep st (.call (.set k v ttl sz))) j
+    match resultOf st' j with
+    | some r => (st', ids, fmtRes r)
+    | none => (st', (id, j) :: ids, "gated")
+  | .cget id k =>
+    if (ids.lookup id).isSome then (st, ids, "dup") else
+    let j := st.threads.length
+    let st' := runThread (istep st (.call (.get k))) j
+    match resultOf st' j with
+    | some r => (st', ids, fmtRes r)
+    | none => (st', (id, j) :: ids, "gated")
+  | .chas id k =>
+    if (ids.lookup id).isSome then (st, ids, "dup") else
+    let j := st.threads.length
+    let st' := runThread (istep st (.call (.has k))) j
+    match resultOf st' j with
+    | some r => (st', ids, fmtRes r)
+    | none => (st', (id, j) :: ids, "gated")
+  | .crel id =>
+    match ids.lookup id with
+    | none => (st, ids, "none")
+    | some j =>
+      let st' := runThread (runThread (runThread st j) j) j
+      (st', ids.filter (·.1 != id), match resultOf st' j with | some r => fmtRes r | none => "stuck")
+
 def runStep (s : Mode) (line : String) : Mode × String :=
   match words line with
   | ["case", id] => (.none, s!"case {id}")
@@ -172,10 +284,17 @@ def runStep (s : Mode) (line : String) : Mode × String :=
   | ws =>
     match s with
     | .none => (s, "bad-op")
-    | .cache cfg c =>
-      match parseEv ws with
-      | some ev => (.cache cfg (step c ev).1, fmtOut (step c ev).2)
-      | none => (s, "bad-op")
+    | .cache cfg st ids =>
+      match parseGated ws with
+      | some g =>
+        let (st', ids', out) := runGated st ids g
+        (.cache cfg st' ids', out)
+      | none =>
+        match parseEv ws with
+        | some ev =>
+          let (st', out) := runSeq st ev
+          (.cache cfg st' ids, out)
+        | none => (s, "bad-op")
     | .caching cfg paths c =>
       match parsePOp paths "Retry-After" ws with
       | some op => (.caching cfg paths (cstep cfg c op).1, fmtPOut (cstep cfg c op).2)
@@ -183,6 +302,10 @@ def runStep (s : Mode) (line : String) : Mode × String :=
     | .throttle cfg c =>
       match parsePOp [] "" ws with
       | some op => (.throttle cfg (tstep absTtlFloat cfg c op).1, fmtPOut (tstep absTtlFloat cfg c op).2)
+      | none => (s, "bad-op")
+    | .shared rems c =>
+      match parseSOp rems ws with
+      | some op => (.shared rems (sstep c op).1, fmtPOut (sstep c op).2)
       | none => (s, "bad-op")
 
 /-! ### judge -/
@@ -231,11 +354,24 @@ def parsePOut (op : POp String) (ows : List String) : Option (POut String) :=
   | .probe, ws => (parseProbe ws).map fun (t, h, n, p) => .probed t h n p
   | _, _ => none
 
+inductive GInfo where
+  | set (k v : String) (ttl : Int) (sz : Nat)
+  | get (k : String) (pos : Nat)
+  | has (k : String) (pos : Nat)
+
+structure CacheJ where
+  cfg : Cfg
+  hist : List (Rec String String) := []       -- sequential reading (meaningful while no gated call was used)
+  ihist : List (IRec String String) := []     -- observable log for the all-schedules Spec
+  gated : List (Nat × GInfo) := []
+  usedGated : Bool := false
+
 inductive JMode where
   | none
-  | cache (cfg : Cfg) (hist : List (Rec String String))
+  | cache (j : CacheJ)
   | caching (cfg : CCfg) (paths : List (Bool × String)) (hist : List (PRec String))
   | throttle (cfg : TCfg) (hist : List (PRec String))
+  | shared (rems : List (CCfg × List (Bool × String))) (hist : List (SRec String))
 
 structure JudgeSt where
   mode : JMode := .none
@@ -253,20 +389,63 @@ def judgeStep (s : JudgeSt) (op out : String) : JudgeSt :=
   match words op with
   | "cfg" :: ws =>
     match s.mode, parseCfg ws with
-    | .none, some (.cache cfg c) => { s with mode := .cache cfg [], now := c.now }
+    | .none, some (.cache cfg st _) => { s with mode := .cache { cfg := cfg }, now := st.c.now }
     | .none, some (.caching cfg paths c) => { s with mode := .caching cfg paths [], now := c.now }
     | .none, some (.throttle cfg c) => { s with mode := .throttle cfg [], now := c.now }
+    | .none, some (.shared rems c) => { s with mode := .shared rems [], now := c.now }
     | _, _ => if out == "bad-op" then s else { s with bad := some "cfg-accepted-but-unparsable" }
   | ws =>
     let dt : Nat := match parseClock ws with | some c => advanceOf c | none => 0
     match s.mode with
     | .none => if out == "bad-op" then s else { s with bad := some "op-before-cfg-answered" }
-    | .cache cfg hist =>
+    | .cache j =>
+      match parseGated ws with
+      | some g =>
+        let j := { j with usedGated := true }
+        let fail (m : String) : JudgeSt := { s with bad := some (m ++ ":" ++ pctEnc out) }
+        let keep (j : CacheJ) : JudgeSt := { s with mode := .cache j }
+        if out == "dup" then keep j else
+        match g with
+        | .cset id k v ttl sz =>
+          if out == "gated" then keep { j with gated := (id, .set k v ttl sz) :: j.gated }
+          else if out == "err:full" then keep j else fail "unparsable-output"
+        | .cget id k =>
+          if out == "gated" then keep { j with gated := (id, .get k j.ihist.length) :: j.gated }
+          else if out == "miss" then keep { j with ihist := .ret k none s.now j.ihist.length :: j.ihist }
+          else fail "unparsable-output"
+        | .chas id k =>
+          if out == "gated" then keep { j with gated := (id, .has k j.ihist.length) :: j.gated }
+          else fail "unparsable-output"
+        | .crel id =>
+          match j.gated.lookup id with
+          | none => if out == "none" then keep j else fail "release-of-unknown-call-answered"
+          | some info =>
+            let j := { j with gated := j.gated.filter (·.1 != id) }
+            match info, ows with
+            | .set k v ttl sz, ["ok"] => keep { j with ihist := .ins k v s.now ttl sz :: j.ihist }
+            | .set .., ["err:full"] => keep j
+            | .get k pos, ["miss"] => keep { j with ihist := .ret k none s.now pos :: j.ihist }
+            | .get k pos, ["hit", w] =>
+              match kvS [w] "v" with
+              | some v => keep { j with ihist := .ret k (some v) s.now pos :: j.ihist }
+              | none => fail "unparsable-output"
+            | .has k pos, ["true"] => keep { j with ihist := .hasRet k true s.now pos :: j.ihist }
+            | .has k pos, ["false"] => keep { j with ihist := .hasRet k false s.now pos :: j.ihist }
+            | _, _ => fail "unparsable-output"
+      | none =>
       match parseEv ws with
       | none => if out == "bad-op" then s else { s with bad := some "unparsable-op-answered" }
       | some ev =>
         match parseOut ev ows with
-        | some o => { s with mode := .cache cfg (⟨s.now, ev, o⟩ :: hist), now := s.now + dt }
+        | some o =>
+          let pos := j.ihist.length
+          let ih : List (IRec String String) := match ev, o with
+            | .set k v ttl sz, .setRes .ok => .ins k v s.now ttl sz :: j.ihist
+            | .get k, .got r => .ret k r s.now pos :: j.ihist
+            | .has k, .hasRes b => .hasRet k b s.now pos :: j.ihist
+            | .probe, .probed t h _ _ => .probe t h :: j.ihist
+            | _, _ => j.ihist
+          { s with mode := .cache { j with hist := ⟨s.now, ev, o⟩ :: j.hist, ihist := ih }, now := s.now + dt }
         | none => { s with bad := some ("unparsable-output:" ++ pctEnc out) }
     | .caching cfg paths hist =>
       match parsePOp paths "Retry-After" ws with
@@ -281,6 +460,20 @@ def judgeStep (s : JudgeSt) (op out : String) : JudgeSt :=
       | some pop =>
         match parsePOut pop ows with
         | some o => { s with mode := .throttle cfg (⟨s.now, pop, o⟩ :: hist), now := s.now + dt }
+        | none => { s with bad := some ("unparsable-output:" ++ pctEnc out) }
+    | .shared rems hist =>
+      match parseSOp rems ws with
+      | none => if out == "bad-op" then s else { s with bad := some "unparsable-op-answered" }
+      | some sop =>
+        let pop : POp String := match sop with
+          | .resp _ m u sel r bl sz => .resp m u sel r bl sz
+          | .req _ m u sel => .req m u sel
+          | .fire i => .fire i
+          | .skip d => .skip d
+          | .adv d => .adv d
+          | .probe => .probe
+        match parsePOut pop ows with
+        | some o => { s with mode := .shared rems (⟨s.now, sop, o⟩ :: hist), now := s.now + dt }
         | none => { s with bad := some ("unparsable-output:" ++ pctEnc out) }
 
 /-- index (from the oldest, 1-based) and instant of the oldest record violating `ok`. -/
@@ -302,15 +495,21 @@ def judgeFinish (s : JudgeSt) : String :=
   | none =>
     match s.mode with
     | .none => "ok"
-    | .cache cfg hist =>
-      if holdsRev cfg hist then "ok"
-      else s!"fail - cache: hit-not-justified-by-last-fresh-store-or-size-clause at {describe (firstBad (recOk cfg) (·.t) hist)}"
+    | .cache j =>
+      if !iholdsRev true j.cfg j.ihist then
+        s!"fail - cache(all-schedules reading): hit-not-justified-by-last-fresh-store-or-size-clause at log#{(firstBad (iRecOk true j.cfg) (fun _ => 0) j.ihist).map (·.1)}"
+      else if !j.usedGated && !holdsRev j.cfg j.hist then
+        s!"fail - cache: hit-not-justified-by-last-fresh-store-or-size-clause at {describe (firstBad (recOk j.cfg) (·.t) j.hist)}"
+      else "ok"
     | .caching cfg _ hist =>
       if choldsRev cfg hist then "ok"
       else s!"fail - caching: replay-not-justified-or-size-clause at {describe (firstBad (cRecOk cfg) (·.t) hist)}"
     | .throttle cfg hist =>
       if tholdsRev cfg hist then "ok"
       else s!"fail - throttling: replay-not-justified-or-wrong-retry-after at {describe (firstBad (tRecOk cfg) (·.t) hist)}"
+    | .shared _ hist =>
+      if sholdsRev false hist then "ok"
+      else s!"fail - shared caching: replay-not-justified-or-size-clause at {describe (firstBad (sRecOk false) (·.t) hist)}"
 
 def main (args : List String) : IO Unit :=
   match args with
